@@ -94,7 +94,7 @@ func FindFunc(name string, pkgs ...*Package) (fi *FuncInfo) {
 		fi = pkg.funcs[vname]
 	}
 	if fi != nil {
-		if private || fi.Export || CurrentPackage == fi.Pkg {
+		if private || fi.Export || CurrentPackage == fi.Pkg || (CurrentPackage == pkg && pkg.Imports[vname] != nil) {
 			return fi
 		}
 		fi = nil
